@@ -390,7 +390,7 @@ func runC09(c *Ctx) {
 			reprs = append(reprs, "sparse")
 		}
 		if n <= 5 {
-			reprs = append(reprs, "cocomplement", "induced-view")
+			reprs = append(reprs, "cocomplement", "induced-view", "dense-bytes", "nested-view")
 		}
 		total := int64(len(class))
 		c.parFor(total, 64, func(lo, hi int64) {
@@ -469,6 +469,7 @@ func runC09(c *Ctx) {
 		}
 	}
 	c09Large(c)
+	c09Wide(c)
 	// the view representations stay live: query, edit the underlying graph, query again
 	var vcs []viewCase
 	for n := 3; n <= 5; n++ {
@@ -544,6 +545,10 @@ func replayC09(kind string, raw json.RawMessage) *Failure {
 		var lc c09LargeCase
 		json.Unmarshal(raw, &lc)
 		return evalC09Large(lc)
+	case "c09-wide":
+		var wc c09WideCase
+		json.Unmarshal(raw, &wc)
+		return evalC09Wide(wc)
 	case "view-history":
 		var vc viewCase
 		json.Unmarshal(raw, &vc)
